@@ -5,6 +5,7 @@
 import MiVerif.Model.Os
 import MiVerif.Lemmas.OsAlign
 import MiVerif.Lemmas.C16
+import MiVerif.Lemmas.OsGood
 
 namespace C11
 open OsM
@@ -98,5 +99,66 @@ example : GenO.mi_os_prim_alloc_aligned 4096 (fun sz al _ _ _ _ => if al = 1 the
     (139706830422016, 139706830422016,
      [("mi_os_prim_free", [139638087880704, 65536, 65536]), ("mi_os_prim_free", [139706807357440, 23064576, 23064576]),
       ("mi_os_prim_free", [139706830487552, 10489856, 10489856])]) := by decide
+
+/-- **`_mi_os_good_alloc_size` as regenerated from src/os.c**, for every page size that divides 64 KiB and every request below 2^63:
+    the rounded size is at least the request, a whole number of pages (so the page rounding `_mi_os_alloc_aligned` applies on top of
+    it changes nothing), never 0 for a non-empty request, and larger than the request by less than one page below 512 KiB and by
+    less than an eighth of the request above — the hypotheses `hg` / `hpage` of the round-trip theorems above are theorems about the
+    generated code, not assumptions -/
+theorem generated_good_alloc_size_is_whole_pages (ps size : Nat) (hps : 0 < ps) (hd : ps ∣ 65536) (hs : size < 2^63) :
+    size ≤ GenO._mi_os_good_alloc_size ps size
+    ∧ GenO._mi_os_good_alloc_size ps size < size + size / 8 + ps
+    ∧ GenO._mi_os_good_alloc_size ps size % ps = 0
+    ∧ (size ≠ 0 → GenO._mi_os_good_alloc_size ps size ≠ 0)
+    ∧ GenO._mi_align_up (GenO._mi_os_good_alloc_size ps size) ps = GenO._mi_os_good_alloc_size ps size := by
+  have hps2 : ps ≤ 65536 := Nat.le_of_dvd (by decide) hd
+  have heq := OsGoodL.good_eq ps size hps hps2 hs
+  have hpos := OsGoodL.goodAlign_pos ps size hps
+  obtain ⟨f1, f2, f3⟩ := OsGoodL.roundup_facts size (OsGoodL.goodAlign ps size) hpos
+  have hdv : ps ∣ GenO._mi_os_good_alloc_size ps size := by
+    rw [heq]; exact Nat.dvd_trans (OsGoodL.ps_dvd_goodAlign ps size hd) (Nat.dvd_mul_left _ _)
+  have hover : OsGoodL.goodAlign ps size ≤ size / 8 + ps := by
+    unfold OsGoodL.goodAlign; repeat' split
+    all_goals omega
+  have e63 : (2:Nat)^63 = 9223372036854775808 := by decide
+  rw [e63] at hs
+  have hal : OsGoodL.goodAlign ps size ≤ 4194304 := by
+    unfold OsGoodL.goodAlign; repeat' split
+    all_goals omega
+  rw [← heq] at f1 f2
+  refine ⟨f1, by omega, Nat.mod_eq_zero_of_dvd hdv, fun h0 => by omega, ?_⟩
+  obtain ⟨k, hk⟩ := hdv
+  rw [OsAlignL.align_up_same, C16L.align_up_eq _ ps hps (by
+    have e64 : (2:Nat)^64 = 18446744073709551616 := by decide
+    rw [e64]; omega), hk]
+  have : (ps * k + ps - 1) / ps = k := by
+    have h1 : ps * k + ps - 1 = (ps - 1) + ps * k := by omega
+    rw [h1, Nat.add_mul_div_left _ _ hps, Nat.div_eq_of_lt (by omega)]; omega
+  rw [this, Nat.mul_comm]
+
+/-- round trip for `_mi_os_alloc_aligned` with no assumption about the rounded size left: every non-empty request below 2^63, every
+    page size dividing 64 KiB -/
+theorem os_alloc_aligned_roundtrip_every_size (ps p size : Nat) (hp : p ≠ 0) (hp2 : p < 2^63) (hps : 0 < ps) (hd : ps ∣ 65536)
+    (hs0 : size ≠ 0) (hs : size < 2^63) :
+    osFreeRequests ps (osAllocAligned ps p size).ptr size (osAllocAligned ps p size).memid = [(osAllocAligned ps p size).mapped] := by
+  obtain ⟨_, _, _, g0, gp⟩ := generated_good_alloc_size_is_whole_pages ps size hps hd hs
+  exact os_alloc_aligned_roundtrip ps p size hp hp2 (g0 hs0) gp
+
+/-- round trip for `_mi_os_alloc` likewise -/
+theorem os_alloc_roundtrip_every_size (ps p size : Nat) (hp : p ≠ 0) (hp2 : p < 2^63) (hps : 0 < ps) (hd : ps ∣ 65536)
+    (hs0 : size ≠ 0) (hs : size < 2^63) :
+    osFreeRequests ps (osAlloc ps p size).ptr size (osAlloc ps p size).memid = [(osAlloc ps p size).mapped] := by
+  obtain ⟨_, _, _, g0, _⟩ := generated_good_alloc_size_is_whole_pages ps size hps hd hs
+  exact os_alloc_roundtrip ps p size hp hp2 (g0 hs0)
+
+/-- what the fallback of `_mi_os_free_ex` releases for a memory id without a recorded size covers the request and is whole pages -/
+theorem free_fallback_covers_request (ps addr size : Nat) (ha : addr ≠ 0) (hps : 0 < ps) (hd : ps ∣ 65536) (hs0 : size ≠ 0) (hs : size < 2^63) :
+    ∃ g, osFreeRequests ps addr size { kind := 3, base := addr, size := 0 } = [(addr, g)] ∧ size ≤ g ∧ g % ps = 0 := by
+  obtain ⟨g1, _, g3, g0, _⟩ := generated_good_alloc_size_is_whole_pages ps size hps hd hs
+  exact ⟨_, free_fallback_size ps addr size ha (g0 hs0), g1, g3⟩
+
+-- non-vacuity: 4 KiB pages, a 3 MiB + 1 byte request is rounded to 3 MiB + 256 KiB
+example : GenO._mi_os_good_alloc_size 4096 3145729 = 3407872 := by decide
+example : (4096 : Nat) ∣ 65536 := ⟨16, by decide⟩
 
 end C11
